@@ -1,10 +1,10 @@
-SPECIFICATION TSpec
+SPECIFICATION Spec
 CONSTANTS
-  BackSeek = 28
-  MaxMatch = 300
+  BackSeek = 3
+  MaxMatch = 1
   PrefixFix = TRUE
   PlaintiffFix = TRUE
   TokenFloor = TRUE
-INVARIANT Conform
-INVARIANT Done
+  MaxWords = 3
+INVARIANT Laws
 CHECK_DEADLOCK FALSE
